@@ -195,6 +195,27 @@ func crashCases(c *common) []crashCase {
 			}
 		}
 	}
+	// (2d) a name bound to a value of one kind and then bound again to a value of another kind,
+	// in the global scope, in a function, in a let, through def and through set
+	redefs := append(append([]string{}, valuePalette...), "(struct RdS [(field A: int64)])", "(defmap rdm)", "(rdm a: 1)", "(package \"rdp\" { A := 1 })", "(raw \"x\")", "12345678901234567890ULL", "'c'", "(now)", "(* 1 1.5)")
+	for i, a := range redefs {
+		for j, b := range redefs {
+			if i == j || !(c.thorough() || hashSel(c.seed, i*100+j, 1, 2)) {
+				continue
+			}
+			add("redef", "seq", fmt.Sprintf("(def y %s)\n", a), fmt.Sprintf("(def y %s)\n", b), "(str y)\n")
+			switch (i + j) % 4 {
+			case 0:
+				add("redef", "eval", fmt.Sprintf("(defn w [] (def y %s) (def y %s) y)\n(w)\n(+ 1 2)\n", a, b))
+			case 1:
+				add("redef", "eval", fmt.Sprintf("(let [y %s] (def y %s) y)\n(+ 1 2)\n", a, b))
+			case 2:
+				add("redef", "eval", fmt.Sprintf("(def y %s)\n(set y %s)\n(str y)\n", a, b))
+			default:
+				add("redef", "eval", fmt.Sprintf("(def y %s)\n{y = %s}\n(for [(def y %s) false (def y %s)] 1)\n", a, b, a, b))
+			}
+		}
+	}
 	// (2c) every form of the surface-language catalogue as a statement that is not the last of a body,
 	// in a function called as an argument of another call, in a let, in a loop, in a closure called twice
 	for fi, f0 := range sessionCatalogue {
@@ -406,7 +427,20 @@ func init() {
 		os.WriteFile(outFile, nil, 0644)
 		self, _ := os.Executable()
 		pos := 0
+		hung := 0
 		for pos < len(mine) {
+			if hung >= 6 {
+				// every hung case costs the worker's full time limit: enough of them are recorded, the rest
+				// of this shard is written as not run (and not judged)
+				f, _ := os.OpenFile(outFile, os.O_APPEND|os.O_WRONLY, 0644)
+				for _, cc := range mine[pos:] {
+					cc.Outs = []any{[]any{"notrun"}}
+					bs, _ := json.Marshal(cc)
+					f.Write(append(bs, '\n'))
+				}
+				f.Close()
+				break
+			}
 			cmd := exec.Command(self, "crash", "-worker", "-in", inFile, "-from", fmt.Sprint(pos), "-out", outFile)
 			cmd.Dir = tmp
 			cmd.Env = append(os.Environ(), "HOME="+tmp, "TMPDIR="+tmp)
@@ -414,6 +448,9 @@ func init() {
 			cmd.Stderr = &stderr
 			err := cmd.Run()
 			done := countLines(outFile)
+			if cmd.ProcessState != nil && cmd.ProcessState.ExitCode() == 3 {
+				hung++
+			}
 			if err == nil && done >= len(mine) {
 				break
 			}
